@@ -106,7 +106,7 @@ func tTag(c context, s []byte) (context, int) {
 		if specialElements[c.element.name] {
 			ret.state = stateSpecialElementBody
 		}
-		if c.element.name != "" && voidElements[c.element.name] {
+		if c.element.name != "" && isVoidElement(c.element) {
 			// Special case: end of start tag of a void element.
 			// Discard unnecessary state, since this element have no content.
 			ret.element = element{}
@@ -138,6 +138,21 @@ func tTag(c context, s []byte) (context, int) {
 		attr:    attr{name: strings.ToLower(string(s[i:j]))},
 		linkRel: c.linkRel,
 	}, j
+}
+
+// isVoidElement reports whether e is a void element whichever of its possible names it
+// assumes: after context joining, e.g. {{if .C}}<object{{else}}<br{{end}}>, the state of the
+// element may only be discarded if none of the alternatives has content.
+func isVoidElement(e element) bool {
+	if len(e.names) == 0 {
+		return voidElements[e.name]
+	}
+	for _, name := range e.names {
+		if !voidElements[name] {
+			return false
+		}
+	}
+	return true
 }
 
 // tAttrName is the context transition function for stateAttrName.
